@@ -1,5 +1,6 @@
 import SwcVerif.Props.C01
 import SwcVerif.Props.C01Gen
+import SwcVerif.Props.C01Front
 #print axioms C01.writer_consts_pinned
 #print axioms C01.digits_parse
 #print axioms C01.fmt4_parse
@@ -25,3 +26,4 @@ import SwcVerif.Props.C01Gen
 #print axioms C01.generated_comments_roundtrip
 #print axioms C01.generated_roundtrip_reset
 #print axioms C01.generated_write_generated_read
+#print axioms C01.generated_write_generated_read_front
